@@ -149,6 +149,8 @@ def _gen_session(wl, plan, s, plots):
                   'fe': fe, 'rs': rs}
             if natural and wl.random() < 0.2:
                 op['bad'] = wl.choice(('amp_threshes', 'th_range', 'center', 'method'))
+            elif wl.random() < 0.25:
+                op['positional'] = True
             ops.append(op)
             if not op.get('bad'):
                 avail.append({'name': rname_prev(s, ops), 'kind': 'features', 'sig': sig, 'center': center,
@@ -465,6 +467,10 @@ def build_call(op, get, band):
             kw['threshold_kwargs'] = opt('THA0')
         elif bad == 'th_range':
             kw['threshold_kwargs'] = get('THBAD_' + op['method'])
+        if op.get('positional'):
+            return F.compute_features, (get(op['sig']), fs, f_range, kw['center_extrema'], kw['burst_method'],
+                                        kw['burst_kwargs'], kw['threshold_kwargs'], kw['find_extrema_kwargs'],
+                                        kw['return_samples']), {}
         return F.compute_features, (get(op['sig']), fs, f_range), kw
     if fn == 'shape':
         kw = dict(center_extrema=op['center'], find_extrema_kwargs=opt(op['fe']))
